@@ -25,7 +25,11 @@ ANC = {"E1": ["E1", "Exception"], "E2": ["E2", "E1", "Exception"], "E3": ["E3", 
 CALLEES = {"fun-E1": ("g1(x)", "E1"), "fun-E2": ("g2(x)", "E2"), "method-E1": ("K().mr(x)", "E1")}
 COVERS = [("none", None, None), ("decl-exact", "decl", "="), ("decl-ancestor", "decl", "Exception"), ("decl-E2", "decl", "E2"), ("decl-E3", "decl", "E3"),
           ("handle-exact", "handle", "="), ("handle-ancestor", "handle", "Exception"), ("handle-E2", "handle", "E2"), ("handle-E3", "handle", "E3"),
-          ("handle-E3-then-E1", "handle2", "E1")]
+          ("handle-E3-then-E1", "handle2", "E1"),
+          # a later arm naming an ANCESTOR of an earlier arm's class: both arms are needed
+          ("handle-E2-then-E1", "arms", ("E2", "E1")), ("handle-E2-then-Exception", "arms", ("E2", "Exception")),
+          ("handle-E1-then-Exception", "arms", ("E1", "Exception")), ("handle-E3-then-Exception", "arms", ("E3", "Exception")),
+          ("handle-E2-then-E3", "arms", ("E2", "E3"))]
 POSITIONS = ["init", "if", "else", "for", "while", "match-arm", "nested-if-for"]
 
 
@@ -61,20 +65,28 @@ def matrix():
             for pos in POSITIONS:
                 for encl in ("function", "method"):
                     arms = []
+                    armval = "7"
                     if kind == "handle":
                         arms = ["err: %s => 7" % cls]
                     elif kind == "handle2":
                         arms = ["err: E3 => 8", "err: %s => 7" % cls]
+                    elif kind == "arms":
+                        arms = ["err: %s => %d" % (c, 8 - j) for j, c in enumerate(cls)]
                     decl = " raise [%s]" % cls if kind == "decl" else ""
-                    covered = kind is not None and cls in ANC[raised]
+                    if kind == "arms":
+                        hit = [j for j, c in enumerate(cls) if c in ANC[raised]]
+                        covered = bool(hit)
+                        armval = str(8 - hit[0]) if hit else "7"
+                    else:
+                        covered = kind is not None and cls in ANC[raised]
                     body = body_lines(pos, expr, arms) + ["x"]
                     if encl == "function":
                         text = PRELUDE + "def ff(x: Int) -> Int%s =>\n" % decl + "".join("    " + l + "\n" for l in body) + "print(ff(0))\nprint(ff(1))\n"
                     else:
                         text = PRELUDE + "class J\n    def ff(self, x: Int) -> Int%s =>\n" % decl + "".join("        " + l + "\n" for l in body) + "def j := J()\nprint(j.ff(0))\nprint(j.ff(1))\n"
                     n = {"for": 2}.get(pos, 1)
-                    if covered and kind in ("handle", "handle2"):
-                        exp = (["0"] * n + ["0"] + ["7"] * n + ["1"], "ok")
+                    if covered and kind in ("handle", "handle2", "arms"):
+                        exp = (["0"] * n + ["0"] + [armval] * n + ["1"], "ok")
                     elif covered:
                         exp = (["0"] * n + ["0"], "uncaught " + raised)
                     else:
@@ -83,7 +95,7 @@ def matrix():
     # raise statements
     for raised in ("E1", "E2"):
         for cov, kind, cls in COVERS:
-            if kind in ("handle", "handle2"):
+            if kind in ("handle", "handle2", "arms"):
                 continue
             cls = raised if cls == "=" else cls
             covered = kind is not None and cls in ANC[raised]
